@@ -154,6 +154,27 @@ fn run_case(ctx: &numbat::Context, units: &Units, out: &mut Out, c: &Case) {
     }
 }
 
+/// `a -> U` through the interpreter: the displayed unit must be U as numbat represents the unit expression U
+fn check_compound_display(ctx: &numbat::Context, out: &mut Out, code: &str) {
+    let Some((_, tsrc)) = code.rsplit_once(" -> ") else { return };
+    let mut cx = ctx.clone();
+    let want = match catch(std::panic::AssertUnwindSafe(|| cx.interpret(&format!("let zqt = {}", tsrc), numbat::resolver::CodeSource::Internal).is_ok())) {
+        Ok(true) => cx.verif_raw_global_quantity("zqt"),
+        _ => None,
+    };
+    let Some(want) = want else { out.count("compound_display_no_target"); return };
+    let mut cx = ctx.clone();
+    let res = catch(std::panic::AssertUnwindSafe(|| match cx.interpret(code, numbat::resolver::CodeSource::Internal) {
+        Ok((_, numbat::InterpreterResult::Value(v))) => (numbat::verif::c03::describe_value(&v), format!("{}", v.pretty_print())),
+        _ => (None, String::new()),
+    }));
+    let Ok((Some(dv), text)) = res else { out.count("compound_display_no_value"); return };
+    out.case(&format!("display {}", code), true);
+    if show_unit(&dv.factors) != show_unit(&want.factors) {
+        out.oracle_fail(&format!("convert-display:{}", code), &format!("disp {}", code), &format!("`{}` is displayed as `{}`, in unit {} instead of the requested {}", code, text, show_unit(&dv.factors), show_unit(&want.factors)));
+    }
+}
+
 /// a compound unit of the given "shape": for every (dimension, exponent) pick a random unit of that dimension
 fn compound(units: &Units, rng: &mut Rng, shape: &[(String, i128, i128)]) -> Vec<FactorDesc> {
     let mut v = Vec::new();
@@ -182,7 +203,9 @@ fn main() {
 
     let run_file = |p: &std::path::Path, out: &mut Out| {
         for l in read_lines(p) {
-            if let Some(c) = parse_case(&l) {
+            if let Some(code) = l.strip_prefix("disp ") {
+                check_compound_display(&ctx, out, code);
+            } else if let Some(c) = parse_case(&l) {
                 run_case(&ctx, &units, out, &c);
             }
         }
@@ -294,6 +317,44 @@ fn main() {
             (Some(_), false) => out.oracle_fail(&key, &src, &format!("`{}` is displayed as `{}`: a multiple of a stale target although the requested unit has magnitude 1", src, text)),
             (None, true) => out.oracle_fail(&key, &src, &format!("`{}` is displayed as `{}`: not as a multiple of the target of magnitude {}", src, text, k)),
         }
+    }
+    // F. display stream for compound targets: `a -> U` with U a product / quotient of 2-3 units (no prefixes); half of
+    // the cases use coherent units only (factor exactly 1: `J/N`, `m*m`, `W/V`), whose base representation is a single
+    // base unit — the case in which the automatic simplification would have something to rewrite. The displayed unit
+    // must be U as numbat itself represents the unit expression U (raw value of `let t = U`).
+    let coherent: Vec<usize> = (0..units.rows.len()).filter(|&i| units.oracle_factor(&[units.factor(i, (false, 0), 1, 1)]) == 1.0).collect();
+    for _ in 0..args.count(300, 4000) {
+        let only_coherent = rng.chance(1, 2);
+        let k = 2 + rng.below(2);
+        let pick = |rng: &mut Rng, rows: &Vec<usize>| -> Option<usize> {
+            let c: Vec<usize> = if only_coherent { rows.iter().copied().filter(|i| coherent.contains(i)).collect() } else { rows.clone() };
+            if c.is_empty() { None } else { Some(*rng.pick(&c)) }
+        };
+        let mut tgt: Vec<FactorDesc> = Vec::new();
+        let mut src: Vec<FactorDesc> = Vec::new();
+        let mut ok = true;
+        for j in 0..k {
+            if !ok { break; }
+            let d = if j == 1 && rng.chance(1, 4) { units.dim_of[units.index[&tgt[0].unit]].clone() } else { (*rng.pick(&dims)).clone() };
+            let e = *rng.pick(&[(1i128, 1i128), (1, 1), (-1, 1), (2, 1), (-1, 1)]);
+            match (pick(&mut rng, &units.by_dim[&d]), pick(&mut rng, &units.by_dim[&d])) {
+                (Some(i), Some(i2)) => {
+                    tgt.push(units.factor(i, (false, 0), e.0, e.1));
+                    src.push(units.factor(i2, (false, 0), e.0, e.1));
+                }
+                _ => ok = false,
+            }
+        }
+        if !ok { continue; }
+        if units.oracle_dimension(&tgt).is_empty() { continue; }
+        let va = ((rng.unit_f64() * 200.0 - 100.0) * 16.0).round() / 16.0;
+        if va == 0.0 { continue; }
+        let a = q(va.to_bits(), src);
+        let t = q(1.0f64.to_bits(), tgt);
+        let code = format!("{} -> {}", q_src(&a), q_src(&t));
+        out.count("compound_display_cases");
+        if only_coherent { out.count("compound_display_cases_coherent"); }
+        check_compound_display(&ctx, &mut out, &code);
     }
     // D. thorough: every ordered pair of same-dimension units
     if args.tier == "thorough" {
